@@ -305,3 +305,95 @@ def check_strict_sortedness(ctx, F, rule="E-DDDMP.strict"):
                                               "sortedness check of an id list is not strict: %s, so a file with a duplicate id "
                                               "passes the header validation" % why))
     return n
+
+
+HEADER_UNITS = {".ids": "VarNo", ".permids": "LevelNo"}
+
+
+def check_header_units(ctx, F, rule="E-DDDMP.fields"):
+    """The DDDMP header lists, per support variable, its variable index under `.ids` and its level under `.permids`
+    (the importer reads them that way).  In the exporter the numbers interpolated into the lines that follow each key
+    are traced with the unit analysis: what is printed under `.ids` must be a variable number, under `.permids` a level
+    number (loop counters take the unit of the manager queries / level-keyed sets they are used with)."""
+    import eunits
+    fids = [f for f in F.hir if f.startswith("oxidd_dump::dddmp::export::") and f.endswith("export_common")]
+    if not ctx.anchor(rule, "oxidd_dump::dddmp::export::export_common", len(fids) == 1):
+        return 0
+    fid = fids[0]
+    u = eunits.Units(F, fid, lambda *a, **k: None)
+    u.run()
+    key = None
+    seen = {}
+    n = 0
+    for ev in u.fmt_events:
+        if ev[0] == "lit":
+            txt = ev[2] or ""
+            if txt.startswith("."):
+                key = txt.split()[0]
+            continue
+        if key in HEADER_UNITS:
+            for nm, unit in ev[2]:
+                n += 1
+                want = HEADER_UNITS[key]
+                ok = unit == want
+                seen[key] = seen.get(key, True) and ok
+                ctx.ob(rule, "%s:%s" % (rule, key), ok,
+                       "export_common (%s, line %s): under `%s` the exporter prints `%s`, %s" %
+                       (F.where(fid), ev[1], key, nm,
+                        "a %s" % want if ok else
+                        "which is %s -- the importer reads this field as a %s, the two coincide only under the identity order"
+                        % ("a " + unit if isinstance(unit, str) else "not derived from a manager query (no unit)", want)))
+    for k in HEADER_UNITS:
+        ctx.ob(rule, "%s:%s:present" % (rule, k), k in seen, "header field %s %s" % (k, "written" if k in seen else
+               "is not written with an interpolated number any more"), nontrivial=False)
+    return n
+
+
+def check_numbering(ctx, F, rule="E-DDDMP.numbering"):
+    """Node and support-variable numbering of the exporter.  The importer requires every child id to be smaller than
+    its parent's id and support-variable indices in 0..nsuppvars; the exporter therefore numbers the levels
+    bottom-up (`node_map.iter_mut().enumerate().rev()`), counting the support-variable index down from nsuppvars with a
+    *pre*-decrement (so the top-most support level gets 0 and the bottom-most nsuppvars - 1)."""
+    import eprep
+    from lib import hirutil as H
+    fids = [f for f in F.hir if f.startswith("oxidd_dump::dddmp::export::") and f.endswith("export_common")]
+    if not ctx.anchor(rule, "oxidd_dump::dddmp::export::export_common", len(fids) == 1):
+        return 0
+    fid = fids[0]
+    loops = []
+    for n in H.walk(F.hir[fid]["body"]):
+        if n.get("k") == "match" and n.get("src", "").startswith("ForLoopDesugar") and \
+                ((n.get("e") or {}).get("f") or {}).get("n", "").endswith("into_iter"):
+            it = n["e"]["a"][0]
+            chain = []
+            x = it
+            while isinstance(x, dict) and x.get("k") == "mcall":
+                chain.append(x.get("name"))
+                x = x["r"]
+            root = H.root_local(x) if isinstance(x, dict) else None
+            if root == "node_map" and "iter_mut" in chain:
+                loops.append((n, chain))
+    if not ctx.anchor(rule, "the numbering loop over node_map", len(loops) == 1):
+        return 0
+    loop, chain = loops[0]
+    fails = []
+    if "rev" not in chain or "enumerate" not in chain or chain.index("rev") > chain.index("enumerate"):
+        fails.append("the numbering loop does not walk the levels bottom-up (`enumerate().rev()`): parents would get smaller ids "
+                     "than their children, which the importer rejects / misreads")
+    _, pat, arm = eprep.loop_parts(loop)
+    # order of `X -= 1` and `*var_idx = X` in the loop body
+    dec = store = None
+    for i, st in enumerate(arm.get("s", [])):
+        e = st.get("e") or {}
+        if e.get("k") == "assignop" and str(e.get("o", "")).startswith("-") and dec is None:
+            dec = (i, H.root_local(e["l"]))
+        if e.get("k") == "assign" and (e["l"].get("k") == "un") and store is None:
+            store = (i, H.root_local(e["r"]))
+    if not (dec and store and dec[1] == store[1]):
+        fails.append("cannot find the support-variable counter (`x -= 1; *var_idx = x`) in the numbering loop")
+    elif dec[0] > store[0]:
+        fails.append("the support-variable index is stored before the counter is decremented: indices run 1..=nsuppvars instead "
+                     "of 0..nsuppvars")
+    ctx.ob(rule, rule, not fails, "export_common (%s): %s" % (F.where(fid), " || ".join(fails) if fails else
+                                                             "levels numbered bottom-up, support-variable index pre-decremented"))
+    return 1
